@@ -29,7 +29,7 @@
 (***************************************************************************)
 EXTENDS Biff5, Json
 
-CONSTANTS Pages5,      \* CODEPAGE values of the BIFF5 documents (0 = none)
+CONSTANTS CheckIndependent, Pages5,      \* CODEPAGE values of the BIFF5 documents (0 = none)
           Pages8,      \* CODEPAGE values of the BIFF8 documents
           PagesDual,   \* code page of the Book stream of dual documents
           Rich,        \* TRUE: more name texts and formats
@@ -196,14 +196,30 @@ Dev(d, r) ==
 
 Why(name) == PrintT(<<"WHY", name, doc>>) /\ FALSE
 
+\* the reader in which the deviations R are repaired (Biff5.tla, CONSTANT Rep)
+RI(R) == INSTANCE Biff5 WITH Rep <- R
+
 Refines ==
   LET f == File(doc)
       r == TLCEval(Read(f))
       ideal == IdealObs(doc)
       dev == Dev(doc, r)
+      \* what a reader with some of the exhibited deviations repaired observes
+      \* (a deviation can hide another: one that fails the workbook hides those of the strings after it --
+      \*  `all` closes the set under "exhibited once the ones before are repaired")
+      d1 == dev \cup Dev(doc, RI(dev)!Read(f))
+      all == d1 \cup Dev(doc, RI(d1)!Read(f))
+      cands == {[rep |-> R, obs |-> RI(R)!Read(f).obs] : R \in SUBSET all}
+      full == (CHOOSE c \in cands : c.rep = all).obs
   IN /\ PrintT(<<"REPLAY", ToJson([doc |-> [lay |-> doc.lay, cp |-> doc.cp, wide |-> doc.wide, tn |-> doc.tn, tc |-> doc.tc,
                                             fmt |-> doc.fmt, lbl |-> doc.lbl, bof |-> doc.bof, unspec |-> doc.unspec,
                                             lname |-> LName(doc)],
-                                   files |-> f, ideal |-> ideal, asis |-> r.obs, calls |-> r.calls, scans |-> r.scans, dev |-> dev])>>)
+                                   files |-> f, ideal |-> ideal, asis |-> r.obs, calls |-> r.calls, scans |-> r.scans, dev |-> dev,
+                                   cands |-> SetToSeq({c.obs : c \in cands})])>>)
      /\ doc.unspec \/ ((dev = {}) <=> (r.obs = ideal)) \/ Why("Refines: deviation set and as-is reading disagree")
+     \* the switches mean what their names say: with every exhibited deviation repaired the reading is the ideal one,
+     /\ doc.unspec \/ full = ideal \/ Why("Refines: the reader with the exhibited deviations repaired is not the ideal one")
+     \* and a switch for a deviation the document does not exhibit changes nothing
+     /\ doc.unspec \/ ~CheckIndependent \/ (\A n \in DevNames \ all : RI({n})!Read(f).obs = r.obs)
+                   \/ Why("Refines: a repair switch changes a document that does not exhibit its deviation")
 =============================================================================
